@@ -176,6 +176,12 @@ def run(ctx) -> None:
         run_case(ctx, {"n": 4, "family": "sam_sweep4", "values": values, "exact": exact, "K": K}, [0, 1, 2, "10"])
     ctx.count("exhaustive_K_sweeps")
     ctx.count("exhaustive_K_sweeps_n4_quarter" if quick else "exhaustive_K_sweeps_n4")
+    if not ctx.out_of_time(10.0):
+        # beyond 8 players coalition ids leave the 8-bit range (size ordering of the memoised structure)
+        nb = rng.choice([9, 9, 10]) if not quick else 9
+        vb, eb = gen.sam_game(rng, nb, rng.choice(["sam_int", "sam_budget", "sam_float"]))
+        run_case(ctx, {"n": nb, "family": "big_n", "values": vb, "exact": eb, "K": gen.random_knowledge_set(rng, nb)}, [0, 1, "1"])
+        ctx.count(f"n{nb}")
     while not ctx.out_of_time(1.5):
         n = rng.choice([3, 4, 4, 5, 5, 6] if quick else [3, 4, 4, 5, 5, 5, 6, 6])
         if rng.random() < 0.1:
